@@ -214,6 +214,8 @@ def finding_key(d, cls, variant="o1"):
         return None
     if sc.startswith("leg4_"):
         return "zbuffv04-stream-second-doors"
+    if sc.startswith(("prefix_retry", "refddict_prefix_retry")) and cls in ("api", "crash", "sanitizer"):
+        return "prefix-used-up-by-failed-frame-start"
     if sc.startswith("refddict_fail") and (bad or (cls == "api" and "failed-refDDict-took-effect" in d.get("violtxt", ""))):
         return "dctx-refddict-failed-call-takes-effect"
     if cls == "not-reported" and sc.startswith(("rand_", "mt")) and ff.startswith("N") and ff.endswith(":98304"):
@@ -450,7 +452,8 @@ BORROW_TIED = ("refddict_",)
 BOPMAP = {"createDCtx": lambda c: "1", "freeDCtx": lambda c: "2", "refDDict": lambda c: "3:%d,%d" % (c["ps"][0], c["natt"]),
           "decompressDCtx": lambda c: "4", "DCtx_reset_params": lambda c: "5",
           "createDDict": lambda c: "6:%d,%d" % (c["ps"][0], c["ps"][1]), "freeDDict": lambda c: "7:%d" % c["ps"][0],
-          "DCtx_loadDictionary": lambda c: "8:%d,0" % c["ps"][0], "dstream": lambda c: "9:%d,0" % (1 + min(1, c["natt"]))}
+          "DCtx_loadDictionary": lambda c: "8:%d,0" % c["ps"][0], "dstream": lambda c: "9:%d,0" % (1 + min(1, c["natt"])),
+          "DCtx_refPrefix": lambda c: "10"}
 
 
 def tie_borrow(mexe, cases, scratch, tag):
